@@ -1,11 +1,19 @@
 import PGM.Model.Total
+import PGM.Proofs.TotalLin
+import PGM.Proofs.TotalQual
 import Mathlib.Algebra.Order.Field.Basic
 import Mathlib.Algebra.BigOperators.Group.List.Basic
+import Mathlib.Algebra.Order.BigOperators.Ring.Finset
+import Mathlib.Tactic.Linarith
+import Mathlib.Tactic.FieldSimp
+import Mathlib.Tactic.Ring
 /-!
 # The estimated total is the best linear unbiased estimate (statements for C09)
 `K` is any linearly ordered field; the model `PGM/Model/Total.lean` is instantiated at `K`.
 -/
 namespace PGM.Total
+open Finset
+set_option linter.unusedSectionVars false
 variable {K : Type} [Field K] [LinearOrder K] [IsStrictOrderedRing K]
 
 def ones (n : Nat) : List K := List.replicate n 1
@@ -14,40 +22,135 @@ def Rect (Q : List (List K)) : Prop := ∀ r ∈ Q, r.length = ncols Q
 
 /-- a supplied total is used exactly -/
 theorem total_given_used (t : K) (meas : List (Meas K)) : totalOf (some t) meas = t := by
-  sorry
+  rfl
 
 /-- whatever is estimated is at least 1 … -/
 theorem total_ge_one (meas : List (Meas K)) : 1 ≤ totalEstimate meas := by
-  sorry
+  unfold totalEstimate
+  simp only
+  split_ifs with h1 h2
+  · exact le_refl _
+  · exact le_refl _
+  · exact not_lt.mp h2
 
 /-- … and exactly 1 when no measurement's queries can express the overall count -/
 theorem total_no_qualifying (meas : List (Meas K)) (h : ∀ m ∈ meas, unbiasedVec m.Q = none) :
     totalEstimate meas = 1 := by
-  sorry
+  have : estimates meas = [] := by
+    unfold estimates
+    rw [List.filterMap_eq_nil_iff]
+    intro m hm
+    rw [h m hm]; rfl
+  unfold totalEstimate
+  simp [this]
 
 /-- the vector a qualifying measurement is used with is certified: `Qᵀ v = 1` and `v ∈ range Q` -/
 theorem unbiasedVec_spec (Q : List (List K)) (v : List K) (h : unbiasedVec Q = some v) :
     matTVec Q v = ones (ncols Q) ∧ ∃ z, v = matVec Q z := by
-  sorry
+  unfold unbiasedVec at h
+  simp only at h
+  split_ifs at h with hc
+  injection h with h
+  subst h
+  exact ⟨hc, _, rfl⟩
 
 /-- **unbiasedness**: if `Qᵀ v = 1` then `⟨v, Q x⟩ = Σ x` for every data vector `x` -/
 theorem unbiased (Q : List (List K)) (v x : List K) (hQ : Rect Q) (hv : matTVec Q v = ones (ncols Q))
     (hvl : v.length = Q.length) (hx : x.length = ncols Q) :
     dot v (matVec Q x) = x.sum := by
-  sorry
+  rw [dot_eq_sum_of_length v _ Q.length hvl, list_sum_eq_sum_range, hx]
+  have h1 := (matTVec_eq_ones_iff Q v).mp hv
+  simp only [matVec_getD Q hQ, Finset.mul_sum]
+  rw [Finset.sum_comm]
+  apply Finset.sum_congr rfl
+  intro j hj
+  have e : ∀ i ∈ range Q.length, v.getD i 0 * (ent Q i j * x.getD j 0)
+      = (ent Q i j * v.getD i 0) * x.getD j 0 := by intro i _; ring
+  rw [Finset.sum_congr rfl e, ← Finset.sum_mul, h1 j (Finset.mem_range.mp hj), one_mul]
+
+/-- a vector in the range of `Q` is orthogonal to the difference of two solutions of `Qᵀ · = 1` -/
+theorem range_orth (Q : List (List K)) (hQ : Rect Q) (z a b : List K)
+    (ha : matTVec Q a = ones (ncols Q)) (hb : matTVec Q b = ones (ncols Q)) :
+    ∑ i ∈ range Q.length, (matVec Q z).getD i 0 * (a.getD i 0 - b.getD i 0) = 0 := by
+  have h1 := (matTVec_eq_ones_iff Q a).mp ha
+  have h2 := (matTVec_eq_ones_iff Q b).mp hb
+  simp only [matVec_getD Q hQ, Finset.sum_mul]
+  rw [Finset.sum_comm]
+  apply Finset.sum_eq_zero
+  intro j hj
+  have e : ∀ i ∈ range Q.length, ent Q i j * z.getD j 0 * (a.getD i 0 - b.getD i 0)
+      = z.getD j 0 * (ent Q i j * a.getD i 0) - z.getD j 0 * (ent Q i j * b.getD i 0) := by
+    intro i _; ring
+  rw [Finset.sum_congr rfl e, Finset.sum_sub_distrib, ← Finset.mul_sum, ← Finset.mul_sum,
+    h1 j (Finset.mem_range.mp hj), h2 j (Finset.mem_range.mp hj)]
+  ring
 
 /-- **minimum variance within a measurement**: among all `u` with `Qᵀ u = 1`, the vector in the
 range of `Q` (the minimum-norm solution that `lsmr` returns) has the smallest `⟨u,u⟩` -/
 theorem minnorm_minimises_variance (Q : List (List K)) (v u : List K) (hQ : Rect Q)
     (hv : unbiasedVec Q = some v) (hu : matTVec Q u = ones (ncols Q)) (hul : u.length = Q.length) :
     dot v v ≤ dot u u := by
-  sorry
+  obtain ⟨hv1, z, rfl⟩ := unbiasedVec_spec Q v hv
+  have ho := range_orth Q hQ z u (matVec Q z) hu hv1
+  rw [dot_eq_sum_of_length _ _ Q.length (matVec_length Q z), dot_eq_sum_of_length _ _ Q.length hul]
+  have e : ∀ i ∈ range Q.length, u.getD i 0 * u.getD i 0
+      = (matVec Q z).getD i 0 * (matVec Q z).getD i 0
+        + ((u.getD i 0 - (matVec Q z).getD i 0) * (u.getD i 0 - (matVec Q z).getD i 0)
+        + 2 * ((matVec Q z).getD i 0 * (u.getD i 0 - (matVec Q z).getD i 0))) := by
+    intro i _; ring
+  rw [Finset.sum_congr rfl e, Finset.sum_add_distrib, Finset.sum_add_distrib, ← Finset.mul_sum, ho]
+  have : 0 ≤ ∑ i ∈ range Q.length,
+      (u.getD i 0 - (matVec Q z).getD i 0) * (u.getD i 0 - (matVec Q z).getD i 0) :=
+    Finset.sum_nonneg (fun i _ => mul_self_nonneg _)
+  linarith
 
+set_option linter.unusedVariables false in
 /-- **completeness of the qualification test**: a measurement qualifies iff the ones vector is in
 the row space of its query matrix -/
 theorem qualifies_iff_rowspace (Q : List (List K)) (hQ : Rect Q) (hne : Q ≠ []) :
     (unbiasedVec Q).isSome ↔ ∃ u : List K, u.length = Q.length ∧ matTVec Q u = ones (ncols Q) := by
-  sorry
+  constructor
+  · intro h
+    obtain ⟨v, hv⟩ := Option.isSome_iff_exists.mp h
+    obtain ⟨hv1, z, rfl⟩ := unbiasedVec_spec Q v hv
+    exact ⟨matVec Q z, matVec_length Q z, hv1⟩
+  · rintro ⟨u, _, hu⟩
+    exact unbiasedVec_isSome_of_rowspace Q hQ u hu
+
+theorem foldl_add_eq_sum' (l : List K) : List.foldl (fun x1 x2 => x1 + x2) 0 l = l.sum :=
+  foldl_add_eq_sum l
+
+theorem combine_eq (ev : List (K × K)) :
+    combine ev = 1 / (ev.map (fun p => 1 / p.2)).sum * (ev.map (fun p => p.1 / p.2)).sum := by
+  unfold combine
+  simp only [foldl_add_eq_sum']
+
+theorem invW_pos (ev : List (K × K)) (hne : ev ≠ []) (hpos : ∀ p ∈ ev, 0 < p.2) :
+    0 < (ev.map (fun p => 1 / p.2)).sum := by
+  apply List.sum_pos
+  · intro x hx
+    obtain ⟨p, hp, rfl⟩ := List.mem_map.mp hx
+    exact one_div_pos.mpr (hpos p hp)
+  · simpa using hne
+
+theorem weighted_sq_lower (c : K) (ev : List (K × K)) (hpos : ∀ p ∈ ev, 0 < p.2)
+    (w : List K) (hwl : w.length = ev.length) :
+    0 ≤ (List.zipWith (fun wi p => wi ^ 2 * p.2) w ev).sum - 2 * c * w.sum
+        + c ^ 2 * (ev.map (fun p => 1 / p.2)).sum := by
+  induction ev generalizing w with
+  | nil => cases w <;> simp_all
+  | cons p ev ih =>
+    cases w with
+    | nil => simp at hwl
+    | cons a w =>
+      have h1 := ih (fun q hq => hpos q (List.mem_cons_of_mem _ hq)) w (by simpa using hwl)
+      have hp : 0 < p.2 := hpos p List.mem_cons_self
+      have h2 : 0 ≤ p.2 * (a - c / p.2) ^ 2 := mul_nonneg hp.le (sq_nonneg _)
+      have h3 : p.2 * (a - c / p.2) ^ 2 = a ^ 2 * p.2 - 2 * c * a + c ^ 2 * (1 / p.2) := by
+        field_simp
+        ring
+      simp only [List.zipWith_cons_cons, List.sum_cons, List.map_cons]
+      nlinarith [h1, h2, h3]
 
 /-- **inverse-variance weighting is the best linear combination**: `combine` is the weighted mean
 with weights `(1/varᵢ)/Σ(1/varⱼ)`, which sum to one, and no other weights summing to one give a
@@ -59,7 +162,62 @@ theorem invvar_is_blue (ev : List (K × K)) (hne : ev ≠ []) (hpos : ∀ p ∈ 
     (ev.map (fun p => 1 / p.2 / W)).sum = 1 ∧
     (ev.map (fun p => (1 / p.2 / W) ^ 2 * p.2)).sum = 1 / W ∧
     1 / W ≤ (List.zipWith (fun wi p => wi ^ 2 * p.2) w ev).sum := by
-  sorry
+  intro W
+  have hW : 0 < W := invW_pos ev hne hpos
+  have hW0 : W ≠ 0 := hW.ne'
+  refine ⟨?_, ?_, ?_, ?_⟩
+  · rw [combine_eq]
+    have : (fun p : K × K => 1 / p.2 / W * p.1) = fun p => 1 / W * (p.1 / p.2) := by
+      funext p; ring
+    rw [this, List.sum_map_mul_left]
+  · have : (fun p : K × K => 1 / p.2 / W) = fun p => 1 / W * (1 / p.2) := by
+      funext p; ring
+    rw [this, List.sum_map_mul_left]
+    show 1 / W * W = 1
+    field_simp
+  · have : ev.map (fun p : K × K => (1 / p.2 / W) ^ 2 * p.2)
+        = ev.map (fun p => 1 / W ^ 2 * (1 / p.2)) := by
+      apply List.map_congr_left
+      intro p hp
+      have := (hpos p hp).ne'
+      field_simp
+    rw [this, List.sum_map_mul_left]
+    show 1 / W ^ 2 * W = 1 / W
+    field_simp
+  · have h := weighted_sq_lower (1 / W) ev hpos w hwl
+    rw [hw] at h
+    have e : (1 / W) ^ 2 * W = 1 / W := by field_simp
+    change 0 ≤ _ - 2 * (1 / W) * 1 + (1 / W) ^ 2 * W at h
+    rw [e] at h
+    linarith
+
+/-- a vector with `Qᵀ v = 1` and at least one column has positive squared norm -/
+theorem dot_self_pos (Q : List (List K)) (v : List K) (hv : matTVec Q v = ones (ncols Q))
+    (hvl : v.length = Q.length) (hnz : ncols Q ≠ 0) : 0 < dot v v := by
+  rw [dot_eq_sum_of_length v v Q.length hvl]
+  have hnn : ∀ i ∈ range Q.length, 0 ≤ v.getD i 0 * v.getD i 0 := fun i _ => mul_self_nonneg _
+  rcases (Finset.sum_nonneg hnn).lt_or_eq with h | h
+  · exact h
+  · exfalso
+    have hz := (Finset.sum_eq_zero_iff_of_nonneg hnn).mp h.symm
+    have h1 := (matTVec_eq_ones_iff Q v).mp hv 0 (Nat.pos_of_ne_zero hnz)
+    have : ∑ i ∈ range Q.length, ent Q i 0 * v.getD i 0 = 0 := by
+      apply Finset.sum_eq_zero
+      intro i hi
+      rw [mul_self_eq_zero.mp (hz i hi), mul_zero]
+    rw [this] at h1
+    exact zero_ne_one h1
+
+theorem combine_const (ev : List (K × K)) (N : K) (hne : ev ≠ [])
+    (h : ∀ p ∈ ev, p.1 = N ∧ 0 < p.2) : combine ev = N := by
+  have hW := invW_pos ev hne (fun p hp => (h p hp).2)
+  rw [combine_eq]
+  have : ev.map (fun p : K × K => p.1 / p.2) = ev.map (fun p => N * (1 / p.2)) := by
+    apply List.map_congr_left
+    intro p hp
+    rw [(h p hp).1]; ring
+  rw [this, List.sum_map_mul_left]
+  field_simp
 
 /-- **noise-free measurements recover N exactly**: if every measurement is `y = Q x` of a data
 vector with `Σ x = N ≥ 1`, noise scales are positive and at least one measurement qualifies, the
@@ -70,6 +228,32 @@ theorem noise_free_total (meas : List (Meas K)) (N : K) (hN : 1 ≤ N)
     (hq : ∃ m ∈ meas, (unbiasedVec m.Q).isSome)
     (hnz : ∀ m ∈ meas, ncols m.Q ≠ 0) :
     totalEstimate meas = N := by
-  sorry
+  have hall : ∀ p ∈ estimates meas, p.1 = N ∧ 0 < p.2 := by
+    intro p hp
+    unfold estimates at hp
+    obtain ⟨m, hm, hmp⟩ := List.mem_filterMap.mp hp
+    obtain ⟨v, hv, rfl⟩ := Option.map_eq_some_iff.mp hmp
+    obtain ⟨hv1, z, hz⟩ := unbiasedVec_spec m.Q v hv
+    have hvl : v.length = m.Q.length := by rw [hz, matVec_length]
+    obtain ⟨x, hxl, hxs, hyx⟩ := hy m hm
+    constructor
+    · show dot v m.y = N
+      rw [hyx, unbiased m.Q v x (hrect m hm) hv1 hvl hxl, hxs]
+    · show 0 < m.noise * m.noise * dot v v
+      have := hnoise m hm
+      exact mul_pos (mul_pos this this) (dot_self_pos m.Q v hv1 hvl (hnz m hm))
+  have hne : estimates meas ≠ [] := by
+    obtain ⟨m, hm, hs⟩ := hq
+    obtain ⟨v, hv⟩ := Option.isSome_iff_exists.mp hs
+    intro h
+    have : (dot v m.y, m.noise * m.noise * dot v v) ∈ estimates meas := by
+      unfold estimates
+      exact List.mem_filterMap.mpr ⟨m, hm, by rw [hv]; rfl⟩
+    rw [h] at this
+    exact List.not_mem_nil this
+  have hc := combine_const (estimates meas) N hne hall
+  unfold totalEstimate
+  simp only [hc]
+  rw [if_neg (by simpa using hne), if_neg (not_lt.mpr hN)]
 
 end PGM.Total
